@@ -39,6 +39,7 @@ type kcfg struct {
 	exec string // inline | go
 	ws   bool
 	gaps []int // seconds slept before each request / message
+	work int   // virtual seconds the HTTP handler / WebSocket message handler takes (0: none)
 	p, d int
 }
 
@@ -46,6 +47,9 @@ func (c kcfg) name() string {
 	kind := "http"
 	if c.ws {
 		kind = "ws"
+	}
+	if c.work > 0 {
+		return fmt.Sprintf("keepalive %s %s exec=%s gaps=%v work=%ds", kind, c.mode, c.exec, c.gaps, c.work)
 	}
 	return fmt.Sprintf("keepalive %s %s exec=%s gaps=%v", kind, c.mode, c.exec, c.gaps)
 }
@@ -64,7 +68,12 @@ type kworld struct {
 	sent, completed int
 	started         int       // handler / message callback invocations
 	startedAt       time.Time // virtual time of the latest one
-	upgraded        bool
+	// the renewal cannot happen before this instant: the end of the handler for a response or a
+	// message (the renewal follows the handler), the handler's entry for an upgrade (the renewal
+	// happens inside Upgrade)
+	renewNotBefore time.Time
+	working        bool // a handler is spending virtual time (the clock may run)
+	upgraded       bool
 
 	fires     []fireRec
 	orphanF   int
@@ -107,7 +116,7 @@ func (w *kworld) kind() string {
 func (w *kworld) clock() {
 	vsched.SetDaemon()
 	vsched.Block("clock: nothing to fire", func() bool {
-		return vtime.Armed() > 0 && (w.sent == w.completed || w.closes > 0)
+		return vtime.Armed() > 0 && (w.sent == w.completed || w.closes > 0 || w.working)
 	})
 	// ---- atomic
 	w.tick()
@@ -177,6 +186,22 @@ func (w *kworld) activityStart() {
 	w.startedAt = vtime.VNow()
 	w.maybeFire("handler")
 	w.startedAt = vtime.VNow()
+	w.renewNotBefore = w.startedAt
+}
+
+// activityWork lets the handler take virtual time, then notes when it ended: the keep-alive
+// time counts from the end of the response / of the message handling, not from its beginning.
+func (w *kworld) activityWork(seconds int) {
+	if seconds > 0 {
+		w.tick()
+		w.working = true
+		vtime.Sleep(time.Duration(seconds) * time.Second)
+		w.tick()
+		w.working = false
+		w.counters["handler_took_virtual_time"]++
+	}
+	w.tick()
+	w.renewNotBefore = vtime.VNow()
 }
 
 // executorDone runs after the connection's job batch returned (the response was flushed and
@@ -186,7 +211,7 @@ func (w *kworld) executorDone() {
 	if w.started > w.completed {
 		w.completed = w.started
 		if w.closes == 0 {
-			w.lo, w.hi = w.startedAt.Add(w.ka), vtime.VNow().Add(w.ka)
+			w.lo, w.hi = w.renewNotBefore.Add(w.ka), vtime.VNow().Add(w.ka)
 			w.counters["renewals"]++
 		}
 	}
@@ -258,7 +283,10 @@ func kbody(c kcfg) func() {
 		}
 		up := websocket.NewUpgrader()
 		up.KeepaliveTime = wsKeepalive
-		up.OnMessage(func(_ *websocket.Conn, _ websocket.MessageType, _ []byte) { w.activityStart() })
+		up.OnMessage(func(_ *websocket.Conn, _ websocket.MessageType, _ []byte) {
+			w.activityStart()
+			w.activityWork(c.work)
+		})
 		conf := nbhttp.Config{
 			Name: "c16", NPoller: 1, ReadBufferSize: 4096, KeepaliveTime: httpKeepalive,
 			BodyAllocator: tr, SupportServerOnly: true, ServerExecutor: executor,
@@ -283,6 +311,7 @@ func kbody(c kcfg) func() {
 					w.maybeFire("upgraded")
 					return
 				}
+				w.activityWork(c.work)
 				_, _ = rw.Write([]byte("ok"))
 			}),
 		}
@@ -457,7 +486,7 @@ func keepaliveScenarios(tier string) []weighted {
 					case thorough && !ws:
 						switch {
 						case len(gl) <= 1:
-							p, d = 2, 1
+							p, d = 1, 2
 						default:
 							p, d = 0, 1
 						}
@@ -472,6 +501,15 @@ func keepaliveScenarios(tier string) []weighted {
 						}
 					}
 					add(kcfg{mode: m, exec: e, ws: ws, gaps: gl, p: p, d: d})
+					// the same list with a handler that takes virtual time (3 of 7 s / 2 of 4 s): the
+					// keep-alive time must count from the end of the exchange
+					if len(gl) == 1 || (len(gl) == 2 && m == ekit.LT && (thorough || gl[0] < 7)) {
+						work := 3
+						if ws {
+							work = 2
+						}
+						add(kcfg{mode: m, exec: e, ws: ws, gaps: gl, work: work, p: p, d: d})
+					}
 				}
 			}
 		}
